@@ -173,6 +173,9 @@ func (w *World) indexFuncs() {
 				}
 				// address-taken: function used as a value operand other than call target
 				var ops [16]*ssa.Value
+				if _, isMC := in.(*ssa.MakeClosure); isMC {
+					continue // the closure value's uses are examined at its referrers
+				}
 				for _, op := range in.Operands(ops[:0]) {
 					if op == nil || *op == nil {
 						continue
